@@ -45,6 +45,26 @@ Proof. exact vi_from_u64_spec. Qed.
 Theorem C16_stream_id_try_from : forall v, sid_try_from v = if v <? 2 ^ 62 then Some v else None.
 Proof. exact sid_try_from_spec. Qed.
 
+(* every checked constructor, not only from_u64: TryFrom<u64>, TryFrom<usize> (64-bit target) and PushId::try_from *)
+Theorem C16_try_from_u64 : forall x, vi_try_from_u64 x = if x <? 2 ^ 62 then Some x else None.
+Proof. exact vi_try_from_u64_spec. Qed.
+Theorem C16_try_from_usize : forall x, vi_try_from_usize x = if x <? 2 ^ 62 then Some x else None.
+Proof. exact vi_try_from_usize_spec. Qed.
+Theorem C16_push_id_try_from : forall x, push_id_try_from x = if x <? 2 ^ 62 then Some x else None.
+Proof. exact push_id_try_from_spec. Qed.
+
+(* the wrappers h3's frame and stream code actually calls (BufMutExt::write_var, BufExt::get_var, both copies):
+   write_var writes the RFC shortest form (and panics on >= 2^62: None), get_var is decode, and they round-trip *)
+Theorem C16_write_var :
+  forall x, vi_write_var x = if x <? 2 ^ 62 then Some (rfc_vi_enc (rfc_vi_shortest x) x) else None.
+Proof. exact vi_write_var_spec. Qed.
+Theorem C16_get_var_is_decode : forall bs, vi_get_var bs = vi_decode bs.
+Proof. exact vi_get_var_is_decode. Qed.
+Theorem C16_write_get_roundtrip :
+  forall x r, x < 2 ^ 62 -> wf_bytes r ->
+    exists e, vi_write_var x = Some e /\ vi_get_var (e ++ r) = (Ok x, r).
+Proof. exact vi_write_get_roundtrip. Qed.
+
 Theorem C16_encode_out_of_range : forall x, 2 ^ 62 <= x -> vi_encode x = None.
 Proof. exact vi_encode_unreachable. Qed.
 
@@ -91,6 +111,12 @@ Print Assumptions C16_empty.
 Print Assumptions C16_decode_never_panics.
 Print Assumptions C16_from_u64.
 Print Assumptions C16_stream_id_try_from.
+Print Assumptions C16_try_from_u64.
+Print Assumptions C16_try_from_usize.
+Print Assumptions C16_push_id_try_from.
+Print Assumptions C16_write_var.
+Print Assumptions C16_get_var_is_decode.
+Print Assumptions C16_write_get_roundtrip.
 Print Assumptions C16_encode_out_of_range.
 Print Assumptions C16_encoded_size.
 Print Assumptions C16_initiator.
